@@ -63,10 +63,11 @@ reg("C05",
 
 reg("C06",
     technique="runtime differential monitor: batched result at each position vs the same call on the extracted spectrum; perturbation monitor (replace one spectrum, all other positions bit-identical); Dataset-accessor vs efth-accessor identity",
-    level_text="For datasets with 0-3 leading dimensions (time, site, lat, lon, part; any order, spectral dims not necessarily last) whose neighbouring spectra are deliberately very different, the real accessor result at sampled positions is compared with the result of the same call on that single spectrum with its own wind/depth; one spectrum (and its wind/depth) is then replaced and every other position must be bit-identical; the Dataset accessor must return an identical object. Held = on the executions observed.",
+    level_text="For datasets with 0-3 leading dimensions (time, site, lat, lon, part; any order, spectral dims not necessarily last) whose neighbouring spectra are deliberately very different, the real accessor result at sampled positions is compared with the result of the same call on that single spectrum with its own wind/depth; one spectrum (and its wind/depth) is then replaced and every other position must be bit-identical; the Dataset accessor must return an identical object. fit_jonswap / fit_gaussian are run on stacks mixing converging, non-converging (very narrow), two-peaked, noisy, single-bin and empty spectra: every position must equal (NaN pattern included) the fit of that spectrum alone, the reversed stack must give the reversed result and replacing one spectrum must leave the others bit-identical. Held = on the executions observed.",
     level_note="Trusted: xarray isel/loc for extracting/replacing positions; tolerances 1e-12 (float64) / 2e-6 (float32) for reductions, bit equality for the perturbation monitor. hmax is excluded as the statement says. Discrete ties and cancellation-prone widths are inconclusive.",
     rule="case = (operation x dtype x set of leading dims x spectral-dims-last or mixed) for each of the three monitors; distinct = distinct keys; non-trivial = dataset has >= 1 leading dim with differing spectra (positions compared: up to 12 per op)",
-    must_observe=["single_vs_batched", "perturbation", "dataset_accessor"])
+    must_observe=["single_vs_batched", "perturbation", "dataset_accessor", "fit_single_vs_batched", "fit_order", "fit_perturbation"],
+    must_note=["fit_nan_positions", "fit_converged_positions"])
 
 reg("C07", asan=True, crash_is_violation=True,
     technique="runtime differential monitor (chunked + scheduled vs in-memory) and sanitizer stress: threaded dask schedulers driving the ASan/UBSan watershed on mixed and equal grid shapes, with a per-thread native-call trace as interleaving evidence",
@@ -92,15 +93,15 @@ reg("C18",
 
 reg("C16",
     technique="runtime reference-model monitor: independent windowed (circular) mean and window min/max bounds over recorded smooth() results; grid-identity and ValueError monitors",
-    level_text="spec.smooth / smooth_spec results on generated datasets (sorted, rolled, reversed and shuffled stored direction order; full-circle and partial grids with exactly representable spacing; every odd window up to the grid size per dimension; extra dims; float32/64) are compared with an independent windowed mean that wraps on full-circle grids, keeps the input where the window does not fit, and must leave dims, coordinate values and their stored order untouched; even windows must raise ValueError. Held = on the executions observed.",
+    level_text="spec.smooth / smooth_spec results on generated datasets (sorted, rolled, reversed and shuffled stored direction order; full-circle grids labelled 0..360, d..360 (north written as 360), -180..180 or one turn up, ordinary sectors and uniformly spaced sectors 1-3 bins short of the circle, all with exactly representable spacing; every odd window up to the grid size per dimension; extra dims; float32/64) are compared with an independent windowed mean that wraps on full-circle grids, keeps the input where the window does not fit, and must leave dims, coordinate values and their stored order untouched; even windows must raise ValueError. Held = on the executions observed.",
     level_note="Trusted: numpy, ref_smooth in vf/checks/c16.py. Tolerance 1e-9 / 2e-5 of the spectrum maximum.",
-    rule="case = (stored order x dtype x nf x nd x full/partial x freq window x dir window x leading dims x class); distinct = distinct keys",
+    rule="case = (stored order x dtype x nf x nd x full/partial:label convention x freq window x dir window x leading dims x class); distinct = distinct keys",
     must_observe=["smooth", "grid_kept", "even_window", "window_one_identity"])
 
 reg("C08",
     technique="runtime reference-model + invariant monitor: independent circular linear interpolant with the documented anchors and single conserving factor, coordinate/identity/non-negativity/zero-above-fmax/Hs invariants, rotate == circular shift",
-    level_text="spec.interp, interp_like, regrid_spec and rotate are run on generated source grids (sorted, rolled, reversed, shuffled directions, duplicated 0/360 bin) and targets (coarser, finer, shifted, below f_min, above f_max, direction grids of other sizes/offsets); the recorded output must have exactly the requested coordinates, be the identity on the source grid (zero spectra included), stay non-negative, be zero above the source f_max, have the source Hs, equal an independently computed circular linear interpolant times one factor per spectrum, and rotation by whole bins / 360 must be a circular shift / identity. Held = on the executions observed.",
-    level_note="Trusted: numpy.interp, vf/oracle/integrals.py for Hs. Target direction grids are uniform full-circle so that their bin width is defined; spectra whose interpolant has no energy are inconclusive for conservation.",
+    level_text="spec.interp, interp_like, regrid_spec and rotate are run on generated source grids (sorted, rolled, reversed, shuffled directions, duplicated 0/360 bin; float64, float32 or integer-direction coordinates) and targets (coarser, finer, shifted, below f_min, above f_max, direction grids of other sizes/offsets); the recorded output must have exactly the requested coordinates, be the identity on the source grid (zero spectra included), stay non-negative, be zero above the source f_max, have the source Hs, equal an independently computed circular linear interpolant times one factor per spectrum, and rotation by whole bins / 360 must be a circular shift / identity. Held = on the executions observed.",
+    level_note="Trusted: numpy.interp, vf/oracle/integrals.py for Hs. Target direction grids are uniform full-circle so that their bin width is defined; spectra whose interpolant has no energy are inconclusive for conservation. With float32 source coordinates the value tolerances are 3e-5 (interpolation weights carry single-precision rounding); the requested coordinates must still come back bit-exact.",
     rule="case = (mode[:target kind] x source direction storage x nf x nd x leading dims x maintain_m0 x entry point) per invariant; rotate: (angle kind x storage x nf x nd); distinct = distinct keys",
     must_observe=["coords_exact", "identity", "conservation", "reference", "nonnegative", "zero_above_fmax", "rotate", "rotate_coords"])
 
@@ -135,10 +136,10 @@ reg("C17",
 
 reg("C14",
     technique="runtime reference-geometry monitor: recorded Dataset.spec.sel results vs an independent model (short-way longitude differences, nearest/idw/bbox rules evaluated in the query's convention)",
-    level_text="Station layouts (random, clustered around 0E/90E/180E/270E, pairs either side of Greenwich and of the dateline) are queried with nearest, idw and bbox selection for all four dataset/query convention combinations, tolerances 0-10, max_sites 1-6, duplicated query points, exact hits and optional precomputed station coordinates; the recorded selection (identified by station-coded efth values), idw weights, failures above tolerance and reported longitudes are compared with an independent geometric model. Held = on the queries observed.",
+    level_text="Station layouts (random, clustered around 0E/90E/180E/270E, pairs either side of Greenwich and of the dateline) are queried with nearest, idw and bbox selection for all four dataset/query convention combinations, tolerances 0-10, max_sites 1-6, duplicated query points, exact hits, query points off the station lattice (down to 0.003 degree from a station), float32 or float64 station coordinates, optional precomputed station coordinates, and call histories in which the same Dataset object was first queried with other station positions and then had lon/lat replaced in place; the recorded selection (identified by station-coded efth values), idw weights, failures above tolerance and reported longitudes are compared with an independent geometric model. Held = on the queries observed.",
     level_note="Trusted: numpy; vf/checks/c14.py geometry. Queries whose convention is ambiguous (all longitudes in [0,180]) and whose two readings select different stations, stations within 1e-9 of a box edge / meridian seam / the tolerance, and equidistant candidates are inconclusive.",
-    rule="case = (method x station layout x dataset convention x query convention x tolerance x precomputed [x max_sites]); distinct = distinct keys",
-    must_observe=["nearest", "idw", "bbox"])
+    rule="case = (method x station layout:coordinate dtype x dataset convention x query convention[:offlattice] x tolerance x precomputed x history [x max_sites]); distinct = distinct keys",
+    must_observe=["nearest", "idw", "bbox", "history"])
 
 reg("C15",
     technique="runtime reference-model monitor on the construction helpers: requested Hs measured by the real accessor, shape identities, spreading normalisation and equality with an independently sampled cos^2s reference, 2-D -> 1-D integration, measured vs requested direction/spread",
